@@ -35,9 +35,12 @@ async function build (tier) {
   dims.push({ name: 'look', symbols: LOOKALIKES, free: true })
   dims.push({ name: 'scope', symbols: Object.keys(SCOPES), free: true })
   dims.push({ name: 'body', symbols: Object.keys(BODIES), free: true })
-  dims.push({ name: 'fileinstr', symbols: [true, false], free: true })
-  dims.push({ name: 'sep', symbols: ['; ', '\n'], free: true })
-  const r = enumerate(dims, { k: 0, valid: (cur, i) => !(i >= 1 && i < L && cur['d' + (i - 1)] === '' && cur['d' + i] !== '') })
+  // one deviation among: another instrumented function in the file / how directives are separated (comments between
+  // them included) / comments printed
+  dims.push({ name: 'fileinstr', symbols: [true, false] })
+  dims.push({ name: 'sep', symbols: ['; ', '\n', '; /* c */ ', ' // c\n'] })
+  dims.push({ name: 'cfg', symbols: ['FULL', 'COMMENTS'] })
+  const r = enumerate(dims, { k: tier === 'thorough' ? 3 : 1, valid: (cur, i) => !(i >= 1 && i < L && cur['d' + (i - 1)] === '' && cur['d' + i] !== '') })
   const leaves = r.leaves.map((l) => {
     const p = l.pick
     const dirs = []
@@ -47,12 +50,12 @@ async function build (tier) {
     const other = FILE_SCOPES.has(p.scope) ? (p.body === 'none' ? 'function other(a, b, g, x) { x = 1 }' : `function other(a, b, g, x) { ${BODIES[p.body]} }`) : ''
     let code = SCOPES[p.scope](D, other)
     if (!FILE_SCOPES.has(p.scope) && p.fileinstr) code += '\nfunction extra(a, b) { return a + b }'
-    return { key: [dirs.join(','), p.look, p.scope, p.body, p.fileinstr, sep === '\n' ? 'nl' : 'sc'].join('¦'), code, scope: p.scope }
+    return { key: [dirs.join(','), p.look, p.scope, p.body, p.fileinstr, JSON.stringify(sep), p.cfg].join('¦'), code, scope: p.scope, cfg: p.cfg }
   })
   return { leaves, stats: r.stats, bound: { directive_sequence_length: L, directives: DIRECTIVES.length, lookalikes: LOOKALIKES.length, scopes: Object.keys(SCOPES).length, bodies: 3 }, alphabets: { directives: DIRECTIVES, lookalikes: LOOKALIKES, scopes: Object.keys(SCOPES), bodies: BODIES } }
 }
 
-function requests (leaf) { return [{ config: C.FULL, file: '/p/app.js', code: leaf.code, want: ['astIn', 'astOut'] }] }
+function requests (leaf) { return [{ config: C[leaf.cfg || 'FULL'], file: '/p/app.js', code: leaf.code, want: ['astIn', 'astOut'] }] }
 
 // list of (scope kind, directive raw texts) in traversal order; prologue statements of the rewriter skipped
 const FUNCTION_TYPES = new Set(['FunctionDeclaration', 'FunctionExpression', 'ArrowFunctionExpression', 'ClassMethod', 'PrivateMethod', 'Constructor', 'MethodProperty', 'GetterProperty', 'SetterProperty'])
